@@ -3,6 +3,7 @@ import PqModel.Spec.Snappy
 import PqModel.Spec.Inflate
 import PqModel.Spec.PageDecode
 import PqModel.Layout
+import PqModel.FileMetaTrees
 
 /-! Spec side of C02: an independent structural reader of Parquet files written from
     parquet.thrift and the format documents. It walks the footer, every column chunk's pages
@@ -281,9 +282,54 @@ structure Report where
   columnIndexes : Nat := 0
   decodedPages : Nat := 0    -- data pages whose levels and values were decoded
   cappedPages : Nat := 0     -- pages too large for the list-based spec decoders
+  bloomSections : Nat := 0   -- bloom filter sections found at the announced offsets
+  regions : List (Nat × Nat × String) := []   -- (start, length, name) of every structure the footer names
 
 def Report.add (r : Report) (cond : Bool) (msg : String) : Report :=
   if cond then r else { r with problems := msg :: r.problems }
+
+def Report.region (r : Report) (start len : Nat) (name : String) : Report :=
+  { r with regions := (start, len, name) :: r.regions }
+
+/-- the member a thrift union holds: the id of its only field -/
+def unionMember : Option TVal → Option Nat
+  | some (.struct [(k, _)]) => some k
+  | _ => none
+
+/-- SPEC (parquet.thrift `BloomFilterHeader {1: required i32 numBytes, 2: required
+    BloomFilterAlgorithm algorithm (union, 1: BLOCK), 3: required BloomFilterHash hash (union, 1:
+    XXHASH), 4: required BloomFilterCompression compression (union, 1: UNCOMPRESSED)}`, and
+    BloomFilter.md: the bitset follows the header; a split-block filter is a whole number of
+    32-byte blocks). Returns the clauses violated by the section at `off` and its length in bytes. -/
+def bloomSection (d : ByteArray) (off : Nat) (announcedLen : Option Int) (limit : Nat) : List String × Nat :=
+  match readStruct d off with
+  | .error e => ([s!"bloom filter header at {off}: {e}"], 0)
+  | .ok (h, hend) =>
+    match TVal.int? (h.field? 1) with
+    | none => ([s!"bloom filter header at {off} lacks numBytes"], hend - off)
+    | some nb =>
+      let nb := nb.toNat
+      let total := hend - off + nb
+      let ps : List String := []
+      let ps := if unionMember (h.field? 2) == some 1 then ps else s!"bloom filter algorithm is not BLOCK" :: ps
+      let ps := if unionMember (h.field? 3) == some 1 then ps else s!"bloom filter hash is not XXHASH" :: ps
+      let comp := unionMember (h.field? 4)
+      let ps := if comp == some 1 || comp == some 2 then ps else s!"bloom filter compression is not a known member" :: ps
+      let ps := if nb > 0 then ps else s!"bloom filter numBytes is 0" :: ps
+      let ps := if comp != some 1 || nb % 32 == 0 then ps else s!"bloom filter bitset of {nb} bytes is not a whole number of 32-byte blocks" :: ps
+      let ps := if off + total ≤ limit then ps else s!"bloom filter section [{off},{off + total}) runs past the footer at {limit}" :: ps
+      let ps := match announcedLen with
+        | some l => if l.toNat == total then ps else s!"bloom_filter_length {l} but header and bitset take {total} bytes" :: ps
+        | none => ps
+      (ps.reverse, total)
+
+/-- two structures the footer names share a byte: `rs` sorted by start -/
+def overlaps : List (Nat × Nat × String) → List String
+  | a :: b :: rest =>
+    let tl := overlaps (b :: rest)
+    if a.1 + a.2.1 ≤ b.1 then tl
+    else s!"{a.2.2} [{a.1},{a.1 + a.2.1}) overlaps {b.2.2} [{b.1},{b.1 + b.2.1})" :: tl
+  | _ => []
 
 def checkChunk (d : ByteArray) (footerStart : Nat) (rgi ci : Nat) (leaf : Leaf) (c : TVal) (rgRows : Nat)
     (start : Nat) (r : Report) : Report × Nat :=
@@ -315,6 +361,15 @@ def checkChunk (d : ByteArray) (footerStart : Nat) (rgi ci : Nat) (leaf : Leaf) 
       let r := { r with chunks := r.chunks + 1, dataPages := r.dataPages + datas.length, dictPages := r.dictPages + ndict,
                         pagesWithCrc := r.pagesWithCrc + (pages.filter (fun (p : PageInfo) => p.crcOk.isSome)).length,
                         v2Pages := r.v2Pages + (pages.filter (fun (p : PageInfo) => p.ptype == 3)).length }
+      let r := r.region first totalComp s!"{tag} pages"
+      -- bloom filter section (ColumnMetaData 14: bloom_filter_offset, 15: bloom_filter_length)
+      let r := match TVal.int? (m.field? 14) with
+        | none => r.add (TVal.int? (m.field? 15) == none) s!"{tag}: bloom_filter_length without bloom_filter_offset"
+        | some bo =>
+          let (ps, total) := bloomSection d bo.toNat (TVal.int? (m.field? 15)) footerStart
+          let r := ps.foldl (fun (r : Report) p => r.add false s!"{tag}: {p}") r
+          let r := r.add (bo.toNat ≥ 4) s!"{tag}: bloom_filter_offset {bo} is inside the magic"
+          { r.region bo.toNat total s!"{tag} bloom filter" with bloomSections := r.bloomSections + 1 }
       let r := r.add (ndict ≤ 1) s!"{tag}: {ndict} dictionary pages"
       let r := r.add (match pages with | p :: rest => rest.all (fun q => !q.op.isDict) && (ndict == 0 || p.op.isDict) | [] => true)
                 s!"{tag}: dictionary page is not the first page"
@@ -361,7 +416,7 @@ def checkChunk (d : ByteArray) (footerStart : Nat) (rgi ci : Nat) (leaf : Leaf) 
         match readStruct d oiOff with
         | .error e => r.add false s!"{tag}: offset index at {oiOff}: {e}"
         | .ok (oi, oiEnd) =>
-          let r := { r with offsetIndexes := r.offsetIndexes + 1 }
+          let r := { r.region oiOff (oiEnd - oiOff) s!"{tag} offset index" with offsetIndexes := r.offsetIndexes + 1 }
           let r := r.add (oiEnd - oiOff == oiLen) s!"{tag}: offset_index_length {oiLen} but the struct is {oiEnd - oiOff} bytes"
           let r := r.add (oiOff ≥ first + totalComp && oiEnd ≤ footerStart) s!"{tag}: offset index overlaps data or footer"
           let locs := (TVal.listD (oi.field? 1)).map fun l => (⟨TVal.nat (l.field? 1), TVal.nat (l.field? 2), TVal.nat (l.field? 3)⟩ : PageLoc)
@@ -381,7 +436,7 @@ def checkChunk (d : ByteArray) (footerStart : Nat) (rgi ci : Nat) (leaf : Leaf) 
         match readStruct d ciOff with
         | .error e => r.add false s!"{tag}: column index at {ciOff}: {e}"
         | .ok (cix, ciEnd) =>
-          let r := { r with columnIndexes := r.columnIndexes + 1 }
+          let r := { r.region ciOff (ciEnd - ciOff) s!"{tag} column index" with columnIndexes := r.columnIndexes + 1 }
           let r := r.add (ciEnd - ciOff == ciLen) s!"{tag}: column_index_length {ciLen} but the struct is {ciEnd - ciOff} bytes"
           let np := (TVal.listD (cix.field? 1)).length
           let r := r.add (np == datas.length) s!"{tag}: column index null_pages has {np} entries for {datas.length} data pages"
@@ -430,6 +485,12 @@ def checkRowGroups (d : ByteArray) (footerStart : Nat) (leaves : List Leaf) (max
     let sumCo := (cols.map fun c => TVal.nat ((c.field? 3).bind (·.field? 7))).sum
     let r := r.add (TVal.nat (rg.field? 2) == sumUn) s!"rg{i}: total_byte_size {TVal.nat (rg.field? 2)} but chunks sum to {sumUn}"
     let r := r.add (match TVal.int? (rg.field? 6) with | some t => t.toNat == sumCo | none => true) s!"rg{i}: total_compressed_size"
+    -- sorting_columns: three required fields each, naming distinct leaf columns
+    let scs := PqModel.FileMetaTrees.sortingOf rg
+    let r := r.add (scs.all (·.isSome)) s!"rg{i}: a sorting column lacks one of its required fields"
+    let idxs := scs.filterMap (fun sc => sc.map (·.1))
+    let r := r.add (idxs.all (fun x => 0 ≤ x && x.toNat < leaves.length)) s!"rg{i}: sorting column index {idxs} does not name one of the {leaves.length} leaf columns"
+    let r := r.add (idxs.eraseDups.length == idxs.length) s!"rg{i}: sorting columns {idxs} name a column twice"
     let (r, nxt) := checkChunks d footerStart i rows leaves cols 0 start r
     checkRowGroups d footerStart leaves maxRows rgs (i + 1) nxt r
 
@@ -456,7 +517,18 @@ def checkFile (d : ByteArray) (maxRows : Nat) : Except String Report :=
         let r := r.add rest.isEmpty "schema: elements left over after the root's children"
         let rgs := TVal.listD (md.field? 4)
         let r := r.add (TVal.nat (md.field? 3) == (rgs.map fun rg => TVal.nat (rg.field? 3)).sum) "file num_rows is not the sum of the row groups"
-        .ok (checkRowGroups d fstart leaves maxRows rgs 0 4 r)
+        -- key_value_metadata: every pair has its (required) key; thrift strings are UTF-8
+        let kvs := PqModel.FileMetaTrees.kvsOf md
+        let r := r.add (kvs.all (·.isSome)) "key_value_metadata: a pair lacks its key"
+        let r := r.add (kvs.all (fun kv => match kv with
+            | some (k, v) => (String.fromUTF8? k).isSome && (match v with | some v => (String.fromUTF8? v).isSome | none => true)
+            | none => true)) "key_value_metadata: a key or value is not UTF-8"
+        let r := r.add (match PqModel.FileMetaTrees.createdByOf md with | some b => (String.fromUTF8? b).isSome | none => true) "created_by is not UTF-8"
+        let r := checkRowGroups d fstart leaves maxRows rgs 0 4 r
+        -- no two structures the footer names (chunk pages, bloom filters, offset and column indexes) share a byte
+        let sorted := r.regions.mergeSort (fun a b => a.1 < b.1 || (a.1 == b.1 && a.2.1 ≤ b.2.1))
+        let r := (overlaps (sorted.filter (fun x => x.2.1 > 0))).foldl (fun (r : Report) m => r.add false m) r
+        .ok r
 
 /-! ## the Dremel streams of a file -/
 
@@ -544,6 +616,6 @@ def dumpFile (d : ByteArray) : Except String (List (Option (List Triple))) :=
       | .ok (leaves, _) => dumpColumns d (TVal.listD (md.field? 4)) leaves 0
 
 def Report.summary (r : Report) : String :=
-  s!"rg={r.rowGroups} chunks={r.chunks} data={r.dataPages} dict={r.dictPages} crc={r.pagesWithCrc} v2={r.v2Pages} oi={r.offsetIndexes} ci={r.columnIndexes} decoded={r.decodedPages} capped={r.cappedPages}"
+  s!"rg={r.rowGroups} chunks={r.chunks} data={r.dataPages} dict={r.dictPages} crc={r.pagesWithCrc} v2={r.v2Pages} oi={r.offsetIndexes} ci={r.columnIndexes} decoded={r.decodedPages} capped={r.cappedPages} bloom={r.bloomSections}"
 
 end PqModel.Spec
